@@ -2,6 +2,7 @@ import Driver.Kernels
 import Driver.Transforms
 import Driver.Cable
 import Driver.Scan
+import Driver.Views
 open Driver
 
 def handle (line : String) : String :=
@@ -15,6 +16,7 @@ def handle (line : String) : String :=
   | "cable" :: rest => handleCable rest
   | "nscan" :: rest => handleNScan rest
   | "icore" :: rest => handleICore rest
+  | "view" :: rest => handleView rest
   | "ping" :: _ => "pong"
   | _ => "bad-op"
 
